@@ -123,9 +123,15 @@ func (q *c20Req) effUntil() int64 {
 type c20Queue struct {
 	inner *opqueue.MemQueue
 	w     *c20World
+	// failNext: the queue refuses the next operation a client submits (a storage failure of the queue)
+	failNext bool
 }
 
 func (q *c20Queue) Add(data *operation.QueuedOperation, pv uint64) (uint, error) {
+	if opID(data) < 0 && q.failNext {
+		q.failNext = false
+		return 0, errors.New("injected operation queue failure")
+	}
 	if opID(data) < 0 {
 		d := *data
 		d.Properties = append(append([]operation.Property{}, data.Properties...), operation.Property{Key: "verif-id", Value: q.w.cur.ID})
